@@ -37,12 +37,13 @@ Only the first violation of a session is reported (afterwards automaton and impl
 if that first one is the read-only invariant (vi), the first behavioural violation (i)-(v) after it is reported too.
 
 Exploration: (1) STATE-GRAPH CLOSURE per (extension set, handler kind): BFS over abstract states
-(automaton state x implementation flags x envelope shape); every newly reached state is expanded with every
-symbol by replaying its witness prefix on a fresh server until no new state appears.  The BFS lives in
+(automaton state incl. 'sender is the null reverse-path' x implementation flags x envelope shape); every newly
+reached state is expanded with every symbol by replaying its witness prefix on a fresh server until no new state
+appears.  The BFS lives in
 gen_cases(): run_case() registers the states each 'bfs' case reached in a module-level table that the
 generator (consumed lazily, case by case, by the same worker) reads to decide what to yield next -- so every
-BFS step is an ordinary replayable case.  (2) all sequences of length 2 after no prefix, after EHLO, after EHLO MAIL RCPT and (STARTTLS sets) after
-EHLO STARTTLS EHLO; thorough adds
+BFS step is an ordinary replayable case.  (2) all sequences of length 2 after no prefix, after EHLO, after EHLO MAIL RCPT, after EHLO MAIL<> RCPT and
+(STARTTLS sets) after EHLO STARTTLS EHLO; thorough adds
 all sequences of length 3 over a reduced 31-symbol alphabet after the same prefixes and over the full alphabet after EHLO
 for the configurations without STARTTLS.  (3) seeded random walks up to 12 units.
 """
@@ -71,7 +72,7 @@ LEVEL_TEXT = ('Real Server (+ real SmtpSession in half of the configurations) dr
               'observed replies; exact recv-boundary attribution. Explored: BFS closure of the abstract state graph '
               '(automaton state x implementation flags x envelope shape) per (extension set, handler kind) with every '
               'alphabet symbol tried from every abstract state; all symbol sequences of length 2 (thorough: 3, see RULE) after '
-              '{no prefix, EHLO, EHLO MAIL RCPT}; seeded random walks to 12 units. Exhaustive only for the abstract graph (monitor '
+              '{no prefix, EHLO, EHLO MAIL RCPT, EHLO MAIL<> RCPT}; seeded random walks to 12 units. Exhaustive only for the abstract graph (monitor '
               '"bfs-closure-reached" counts closed configurations; one witness prefix per abstract state) and for the '
               'bounded-depth enumeration when the generator was not cut; everything else is sampling. Held = held on '
               'the sequences run.')
@@ -82,12 +83,12 @@ LEVEL_NOTE = ('Replies are observed where the server hands them to its socket (s
               'class that apply scripted verdicts by current unit (never by call ordinal).')
 TECHNIQUE = 'runtime monitoring: online spec-automaton checker with exact recv-boundary attribution; BFS state-graph closure'
 RULE = ('case = (extension set in {default,SIZE,STARTTLS,AUTH,ALL}, handler kind in {rec, session}, banner verdict, '
-        'sequence of symbols); symbol = command form (EHLO, HELO, MAIL ok / 4 malformed / SIZE ok / SIZE over / 8-bit, '
-        'RCPT ok / 3 malformed, DATA+content small / empty / over-limit, DATA with argument, RSET, RSET arg, NOOP, QUIT, '
-        'QUIT arg, STARTTLS, STARTTLS arg, AUTH PLAIN initial-response / challenge / LOGIN / cancel / bad base64 / unknown '
+        'sequence of symbols); symbol = command form (EHLO, EHLO address literal, HELO, MAIL ok / null reverse-path <> (also with '
+        'SIZE) / 4 malformed / SIZE ok / SIZE over / 8-bit, RCPT ok / <postmaster> / empty <> / 3 malformed, DATA+content small / empty / over-limit, DATA with argument, RSET, RSET arg, NOOP, QUIT, '
+        'QUIT arg, STARTTLS, STARTTLS arg, AUTH PLAIN initial-response / challenge / empty identity / LOGIN / cancel / bad base64 / unknown '
         'mechanism / bare, unknown verb, empty line, CLOSE, TLSHANDSHAKE, BANNER_, HAVE_DATA) x handler verdict for '
         'that callback in {accept,450,550,421} (message-received also 221). Generated by (1) BFS closure of the abstract '
-        'state graph, (2) all sequences of length 2 after {nothing, EHLO, EHLO MAIL RCPT, and EHLO STARTTLS EHLO where offered} (thorough: also length 3 over a reduced 31-symbol alphabet after the same prefixes and over the full alphabet after EHLO for configurations without STARTTLS), (3) seeded random walks up to 12 units. '
+        'state graph, (2) all sequences of length 2 after {nothing, EHLO, EHLO MAIL RCPT, EHLO MAIL<> RCPT, and EHLO STARTTLS EHLO where offered} (thorough: also length 3 over a reduced 31-symbol alphabet after the same prefixes and over the full alphabet after EHLO for configurations without STARTTLS), (3) seeded random walks up to 12 units. '
         'One case = one session = one evaluation. non-trivial & distinct = distinct (config, sequence) that reaches an '
         'open transaction (MAIL accepted) or contains a rejected command followed by a command that depends on it '
         '(EHLO/HELO -> MAIL, MAIL -> RCPT/DATA, RCPT -> DATA)')
@@ -101,8 +102,8 @@ ASSUMPTIONS = ['stop-and-wait client: one unit is in flight at a time (pipelined
                'TLS: self-signed certificate, client does not verify it']
 REQUIRED_HITS = ['order-oracle', 'reply-count-oracle', 'reset-oracle', 'close-code-oracle', 'handoff-envelope-oracle',
                  'flags-invariant', 'bfs-closure-reached', 'tls-handshake-performed', 'auth-334-exchange']
-SHARDS = {'quick': 10, 'thorough': 16}
-BUDGET = {'quick': 50, 'thorough': 800}
+SHARDS = {'quick': 12, 'thorough': 16}
+BUDGET = {'quick': 58, 'thorough': 800}
 EXHAUSTIVE = {'quick': False, 'thorough': False}
 
 NWALKS = {'quick': 10000, 'thorough': 100000}
@@ -124,15 +125,21 @@ BODY_BIG = (b'X' * 70 + b'\r\n') * 3
 EOD = b'.\r\n'
 
 # base -> (kind, line template, own callback, continuation)
-#   kind: helo | mail | mailp (well-formed MAIL whose parameter the server may legitimately refuse) | rcpt | data |
+#   kind: helo | mail | mailp (well-formed MAIL whose parameter the server may legitimately refuse) | rcpt |
+#         rcptp (RCPT the server may legitimately refuse without callback) | data |
 #         free (own callback at most once, nothing else demanded) | bad (malformed / unknown: error, no callback)
 BASES = {
     'EHLO': ('helo', b'EHLO c%d.test', 'EHLO', None),
     'HELO': ('helo', b'HELO c%d.test', 'HELO', None),
+    # ... an address literal as EHLO identity, ...
+    'EHLOlit': ('helo', b'EHLO [127.0.0.1]', 'EHLO', None),
     'EHLOnoarg': ('bad', b'EHLO', None, None),
     'HELOnoarg': ('bad', b'HELO', None, None),
     'MAIL': ('mail', b'MAIL FROM:<s%d@x.test>', 'MAIL', None),
     'MAILsize': ('mailp', b'MAIL FROM:<s%d@x.test> SIZE=10', 'MAIL', None),
+    # 'falsy but valid' arguments: the null reverse-path of every bounce / DSN (address == ''), ...
+    'MAILnull': ('mail', b'MAIL FROM:<>', 'MAIL', None),
+    'MAILnullsize': ('mailp', b'MAIL FROM:<> SIZE=10', 'MAIL', None),
     'MAILsizeover': ('bad', b'MAIL FROM:<s%d@x.test> SIZE=99999', None, None),
     'MAILbadparam': ('bad', b'MAIL FROM:<s%d@x.test> SIZE=abc', None, None),
     'MAILnobr': ('bad', b'MAIL FROM:s%d@x.test', None, None),
@@ -140,6 +147,9 @@ BASES = {
     'MAILbare': ('bad', b'MAIL', None, None),
     'MAIL8bit': ('bad', b'MAIL FROM:<\xff%d@x.test>', None, None),
     'RCPT': ('rcpt', b'RCPT TO:<r%d@x.test>', 'RCPT', None),
+    # ... the domain-less <postmaster>, an empty forward-path (the server may refuse it: lenient like mailp), ...
+    'RCPTpm': ('rcpt', b'RCPT TO:<postmaster>', 'RCPT', None),
+    'RCPTnull': ('rcptp', b'RCPT TO:<>', 'RCPT', None),
     'RCPTnobr': ('bad', b'RCPT TO:r%d@x.test', None, None),
     'RCPTnoto': ('bad', b'RCPT FROM:<r%d@x.test>', None, None),
     'RCPTbare': ('bad', b'RCPT', None, None),
@@ -157,6 +167,8 @@ BASES = {
     'AUTH': ('free', b'AUTH PLAIN ' + _PLAIN, 'AUTH', []),
     'AUTHchal': ('free', b'AUTH PLAIN', 'AUTH', [_PLAIN]),
     'AUTHlogin': ('free', b'AUTH LOGIN', 'AUTH', [base64.b64encode(b'user'), base64.b64encode(b'pass')]),
+    # ... and an empty authentication identity / password.
+    'AUTHempty': ('free', b'AUTH PLAIN ' + base64.b64encode(b'\x00\x00'), 'AUTH', []),
     'AUTHcancel': ('bad', b'AUTH PLAIN', None, [b'*']),
     'AUTHbadb64': ('bad', b'AUTH PLAIN !!!!', None, []),
     'AUTHmech': ('bad', b'AUTH NOSUCHMECH', None, []),
@@ -168,7 +180,9 @@ BASES = {
     'BANNER_': ('bad', b'BANNER_', None, None),
     'HAVE_DATA': ('bad', b'HAVE_DATA x', None, None),
 }
-AUTH_BASES = ('AUTH', 'AUTHchal', 'AUTHlogin', 'AUTHcancel', 'AUTHbadb64', 'AUTHmech', 'AUTHbare')
+# the argument the callback must receive, where it is not the default of the kind
+ARGS = {'MAILnull': '', 'MAILnullsize': '', 'RCPTpm': 'postmaster', 'RCPTnull': '', 'EHLOlit': '[127.0.0.1]'}
+AUTH_BASES = ('AUTH', 'AUTHchal', 'AUTHlogin', 'AUTHempty', 'AUTHcancel', 'AUTHbadb64', 'AUTHmech', 'AUTHbare')
 V4 = ('ok', '450', '550', '421')
 
 
@@ -176,7 +190,9 @@ def build_alphabet():
     a = []
     for b in ('EHLO', 'HELO', 'MAIL', 'RCPT', 'RSET', 'NOOP', 'QUIT', 'STARTTLS', 'AUTH'):
         a += [b if v == 'ok' else b + '/' + v for v in V4]
-    a += ['AUTHchal', 'AUTHchal/550', 'AUTHlogin', 'MAILsize', 'MAILsize/550', 'MAIL/221']
+    a += ['AUTHchal', 'AUTHchal/550', 'AUTHlogin', 'AUTHempty', 'MAILsize', 'MAILsize/550', 'MAIL/221']
+    a += ['MAILnull' if v == 'ok' else 'MAILnull/' + v for v in V4]
+    a += ['MAILnullsize', 'MAILnullsize/550', 'RCPTpm', 'RCPTnull', 'RCPTnull/550', 'EHLOlit']
     a += ['DATA/450', 'DATA/550', 'DATA/421', 'DATA', 'DATA/ok/450', 'DATA/ok/550', 'DATA/ok/421', 'DATA/ok/221',
           'DATAempty', 'DATAempty/ok/550', 'DATAbig', 'DATAbig/ok/421']
     a += [b for b in BASES if BASES[b][0] == 'bad']
@@ -185,12 +201,14 @@ def build_alphabet():
 
 ALPHABET = build_alphabet()
 # reduced alphabet for the depth-3 enumeration of the thorough tier
-ALPHA3 = ['EHLO', 'EHLO/550', 'HELO', 'MAIL', 'MAIL/550', 'MAIL/421', 'MAILnobr', 'MAILsize', 'RCPT', 'RCPT/450',
+ALPHA3 = ['EHLO', 'EHLO/550', 'HELO', 'MAIL', 'MAIL/550', 'MAIL/421', 'MAILnull', 'MAILnull/550', 'MAILnobr', 'MAILsize',
+          'RCPT', 'RCPT/450', 'RCPTnull',
           'RCPT/550', 'RCPTnobr', 'DATA', 'DATA/550', 'DATA/ok/550', 'DATA/ok/421', 'DATAempty', 'DATAbig', 'DATAarg',
           'RSET', 'RSET/550', 'RSETarg', 'NOOP', 'QUIT', 'QUIT/450', 'STARTTLS', 'AUTH', 'AUTH/550', 'AUTHchal', 'UNK',
           'EMPTY']
 WALK_WEIGHTS = {'EHLO': 6, 'HELO': 2, 'MAIL': 8, 'RCPT': 8, 'DATA': 6, 'RSET': 3, 'DATAempty': 2, 'DATAbig': 2,
-                'STARTTLS': 3, 'AUTH': 3, 'AUTHchal': 2, 'MAILsize': 2}
+                'STARTTLS': 3, 'AUTH': 3, 'AUTHchal': 2, 'MAILsize': 2, 'MAILnull': 5, 'MAILnullsize': 2, 'RCPTpm': 2,
+                'RCPTnull': 2, 'EHLOlit': 2}
 
 
 class Unit(object):
@@ -203,8 +221,11 @@ class Unit(object):
         self.v2 = p[2] if len(p) > 2 else 'ok'
         self.kind, tmpl, self.own, self.cont = BASES[self.base]
         self.line = (tmpl % idx if b'%d' in tmpl else tmpl) + b'\r\n'
-        self.arg = {'helo': 'c%d.test', 'mail': 's%d@x.test', 'mailp': 's%d@x.test',
-                    'rcpt': 'r%d@x.test'}.get(self.kind, '%d') % idx
+        if self.base in ARGS:
+            self.arg = ARGS[self.base]
+        else:
+            self.arg = {'helo': 'c%d.test', 'mail': 's%d@x.test', 'mailp': 's%d@x.test',
+                        'rcpt': 'r%d@x.test'}.get(self.kind, '%d') % idx
 
 
 # ---------------------------------------------------------------- independent reply splitter
@@ -386,7 +407,8 @@ class Run(object):
         self._spec_before = self.spec_tuple()
 
     def spec_tuple(self):
-        return (self.greeted, self.helo, self.mail, min(len(self.rcpts), 2), self.authed, self.tls, self.ended)
+        return (self.greeted, self.helo, self.mail, min(len(self.rcpts), 2), self.authed, self.tls, self.ended,
+                self.mail is True and self.sender == '')
 
     def finish(self, how):
         """handle() has exited."""
@@ -468,7 +490,7 @@ class Run(object):
             return self.greeted
         if u.kind in ('mail', 'mailp'):
             return and3(self.greeted, self.helo, not3(self.mail))
-        if u.kind == 'rcpt':
+        if u.kind in ('rcpt', 'rcptp'):
             return self.mail
         if u.kind == 'data':
             if self.mail is True and self.certain:
@@ -488,11 +510,11 @@ class Run(object):
         if u.kind != 'free':
             self.hits['order-oracle'] += 1
         if adm is False:
-            if u.kind in ('rcpt', 'data') and self.why != 'initial':
+            if u.kind in ('rcpt', 'rcptp', 'data') and self.why != 'initial':
                 self.hits['reset-oracle'] += 1
             if nown:
                 clause = 'callback-out-of-order'
-                if u.kind in ('rcpt', 'data', 'mail', 'mailp') and self.greeted and self.helo is True and not self.mail \
+                if u.kind in ('rcpt', 'rcptp', 'data', 'mail', 'mailp') and self.greeted and self.helo is True and not self.mail \
                         and self.why not in ('initial', 'mail-rejected'):
                     clause = 'state-survives-' + self.why
                 self.violate(clause, '%s callback invoked although the command is out of order (automaton: %s)'
@@ -508,7 +530,7 @@ class Run(object):
                 self.violate('in-order-command-refused-without-callback', 'well-formed in-order %s was answered %s '
                              'without consulting the %s callback (automaton: %s)' % (u.sym, code, own, self._state_before),
                              reply=code)
-            if nown == 1 and u.kind in ('helo', 'mail', 'mailp', 'rcpt'):
+            if nown == 1 and u.kind in ('helo', 'mail', 'mailp', 'rcpt', 'rcptp'):
                 got = [c[1] for c in cbs if c[0] == own][0]
                 if got != u.arg:
                     self.violate('callback-argument-mismatch', '%s callback got %r, the command carried %r'
@@ -526,9 +548,9 @@ class Run(object):
             return (self._auth_left.pop(0) if self._auth_left else b'*') + b'\r\n'
         # final reply of the unit: advance the automaton from what was observed
         if code is not None and code[0] in '45':
-            self.rejected.add(u.kind.replace('mailp', 'mail') if u.kind != 'bad' else {'MAIL': 'mail', 'RCPT': 'rcpt', 'EHLO': 'helo',
+            self.rejected.add(u.kind.replace('mailp', 'mail').replace('rcptp', 'rcpt') if u.kind != 'bad' else {'MAIL': 'mail', 'RCPT': 'rcpt', 'EHLO': 'helo',
                                                               'HELO': 'helo'}.get(u.base[:4], 'other'))
-        dep = {'mail': 'helo', 'mailp': 'helo', 'rcpt': 'mail', 'data': 'rcpt'}.get(u.kind)
+        dep = {'mail': 'helo', 'mailp': 'helo', 'rcpt': 'mail', 'rcptp': 'mail', 'data': 'rcpt'}.get(u.kind)
         if dep and (dep in self.rejected or (u.kind == 'data' and 'mail' in self.rejected)):
             self.nt_dep = True
         if u.kind == 'helo' and code == '250':
@@ -540,7 +562,7 @@ class Run(object):
                 self.nt_open = True
             elif adm is True and code is not None and code[0] in '45':
                 self.why = 'mail-rejected'
-        elif u.kind == 'rcpt' and code == '250' and nown:
+        elif u.kind in ('rcpt', 'rcptp') and code == '250' and nown:
             self.rcpts.append(u.arg)
         elif u.base == 'RSET' and code == '250':
             self.reset('rset')
@@ -617,7 +639,7 @@ class Run(object):
         if self.session is None:
             return None
         e = self.session.envelope
-        return None if e is None else (e.sender is not None, min(len(e.recipients), 2))
+        return None if e is None else (e.sender is not None, e.sender == '', min(len(e.recipients), 2))
 
     def end_unit(self):
         f = self.impl_flags()
@@ -1062,7 +1084,7 @@ def gen_bfs(ext, kind):
 
 
 # prefixes of the bounded-depth enumeration: nothing, greeted+EHLO, and an open transaction with one recipient
-DEPTH_PREFIXES = ([], ['EHLO'], ['EHLO', 'MAIL', 'RCPT'])
+DEPTH_PREFIXES = ([], ['EHLO'], ['EHLO', 'MAIL', 'RCPT'], ['EHLO', 'MAILnull', 'RCPT'])
 # ... and, where STARTTLS is offered, an encrypted greeted session (the only place AUTH PLAIN/LOGIN is allowed)
 TLS_PREFIXES = (['EHLO', 'STARTTLS', 'EHLO'],)
 # random walks: the weight of a symbol is multiplied when it is the natural continuation of the previous one
@@ -1071,15 +1093,29 @@ FOLLOW = {'EHLO': {'MAIL': 5}, 'HELO': {'MAIL': 5}, 'MAIL': {'RCPT': 6}, 'RCPT':
           'DATA': {'MAIL': 5}, 'RSET': {'MAIL': 3, 'RCPT': 3}, 'STARTTLS': {'EHLO': 5}, 'AUTH': {'MAIL': 4}}
 
 
+def family(sym):
+    """MAIL / RCPT / DATA / EHLO for every well-formed variant of those commands, else the base itself."""
+    base = sym.split('/')[0]
+    kind = BASES[base][0]
+    if kind in ('mail', 'mailp'):
+        return 'MAIL'
+    if kind in ('rcpt', 'rcptp'):
+        return 'RCPT'
+    if kind == 'helo':
+        return base[:4]
+    return base
+
+
 def gen_walk(rnd, alpha):
     base_w = [WALK_WEIGHTS.get(s, 1) for s in alpha]
+    fams = [family(s) for s in alpha]
     syms, prev = [], None
     for _ in range(rnd.randint(3, 12)):
         f = FOLLOW.get(prev, {})
-        w = [bw * f.get(s.split('/')[0], 1) for s, bw in zip(alpha, base_w)] if f else base_w
+        w = [bw * f.get(fm, 1) for fm, bw in zip(fams, base_w)] if f else base_w
         s = rnd.choices(alpha, w)[0]
         syms.append(s)
-        prev = s.split('/')[0] if '/' not in s or s.startswith('DATA') else None
+        prev = family(s) if '/' not in s or s.startswith('DATA') else None    # only an accepted command leads on
         if prev is not None and prev.startswith('DATA'):
             prev = 'DATA'
     return syms
